@@ -2,7 +2,7 @@
 import common, schema, histgen, p_hist, p_C09
 THEOREMS = ["C10_encoder_call", "C10_encoder_run", "C10_struct_write", "C10_write_block_partial", "C10_empty_output",
             "C10_call_by_call", "C10_history", "C10_nonvacuous"]
-EXTRA_PROPERTY_FILES = ("Properties_encoder",)   # obligations over the regenerated Gen_encoder.v (translator/encoder.py): the write operations translated from the source
+EXTRA_PROPERTY_FILES = ("Properties_encoder", "Properties_exporter")   # obligations over the regenerated Gen_encoder.v (translator/encoder.py): the write operations translated from the source
 def run(ctx):
     sch = schema.load(ctx["mdl"]); rng, tier = ctx["rng"], ctx["tier"]
     # (a) every structure: returned count == bytes written (the S wr cases of C09 for all structures)
